@@ -25,6 +25,8 @@ pub use arena::sandboxed::Sandboxed;
 #[cfg(feature = "sandboxed-arenas")]
 use arena::ArenaMap;
 use arena::NodeId;
+#[cfg(leptos_verif)]
+pub use arena::verif_len;
 pub use arena_item::*;
 pub use context::*;
 pub use storage::*;
